@@ -59,6 +59,10 @@ def gen(seed, run, tier='quick'):
     kinds = list(w)
     weights = [w[k] for k in kinds]
     n_ops = rng.randrange(4, (90 if tier == 'thorough' else MAX_OPS) + 1)
+    if rng.random() < 0.02:
+        # a long-lived process: a few runs are several times longer than
+        # the rest (bounded caches evict, counters grow)
+        n_ops = rng.randrange(150, 260)
     ops = []
     n_base0 = 0 if variant == 'predefined' and rng.random() < 0.5 \
         else rng.choice([1, 2, 2, 3])
